@@ -621,6 +621,12 @@ pub(crate) struct SubscriptionSender {
 
 impl SubscriptionSender {
 	fn send(&self, msg: Box<RawValue>) -> Result<(), TrySubscriptionSendError> {
+		// Once a message has been dropped the stream must not continue behind the gap: every further
+		// message is refused as well until the subscription has been closed.
+		if self.lagged.has_lagged() {
+			return Err(TrySubscriptionSendError::TooSlow(msg));
+		}
+
 		match self.inner.try_send(msg) {
 			Ok(_) => Ok(()),
 			Err(TrySendError::Closed(_)) => Err(TrySubscriptionSendError::Closed),
